@@ -871,6 +871,113 @@ fn first_diff(a: &[u8], b: &[u8]) -> Option<usize> {
 }
 
 // ------------------------------------------------------------------------------------------
+// two streams open at once on one connection
+// ------------------------------------------------------------------------------------------
+fn exec_duo(sv: &mut Servers, out: &mut Out, idx: &str, pa: &Params, pb: &Params, script: &str) -> Option<RawResult> {
+    let (ba, bb) = (build(pa)?, build(pb)?);
+    let (ra, rb) = (register(ba.spec.clone()), register(bb.spec.clone()));
+    let mut failures: Vec<(String, String)> = Vec::new();
+    let (ta, tb) = (stream_tok(&ba.logical, ba.is_pattern), stream_tok(&bb.logical, bb.is_pattern));
+    let (ka, kb) = (!ta.starts_with("z:"), !tb.starts_with("z:"));
+    let op = format!(
+        "duo {} {} {} {} {} {} {} {} {} {} {} {} {} {}",
+        idx, pa.srv, pa.kind, pa.chunk, pa.depth, ta, ba.evs_tok, pa.end.tok(), tb, bb.evs_tok, pb.end.tok(), script, pa.aux(), pb.aux()
+    );
+    out.begin(&op);
+    let addr = sv.addr(&pa.srv, &pa.kind, 0, pa.chunk, pa.depth)?;
+    let mut obs: Vec<String> = vec![idx.to_string()];
+    let mut steps = 0usize;
+    match Conn::connect(sv, &pa.srv, addr) {
+        Err(e) => {
+            failures.push(("svs.raw.connect".into(), e));
+            obs.push("noconn".into());
+        }
+        Ok(mut conn) => {
+            match (do_open(&mut conn, sv, &ra), do_open(&mut conn, sv, &rb)) {
+                (Ok(oa), Ok(ob)) => {
+                    obs.push(format!("open {} {} {}", oa.format, ob.format, if oa.stream_id != ob.stream_id { "distinct" } else { "same" }));
+                    if oa.stream_id == ob.stream_id {
+                        failures.push(("svs.duo.same_stream_id".into(), format!("two open streams share id {}", oa.stream_id)));
+                    }
+                    let mut sta = OracleState::default();
+                    let mut stb = OracleState::default();
+                    let mut shape = Vec::new();
+                    for t in script.split(',') {
+                        steps += 1;
+                        let is_a = matches!(t, "a" | "A" | "x");
+                        let (id, known, end) = if is_a { (oa.stream_id, ka, pa.end) } else { (ob.stream_id, kb, pb.end) };
+                        match t {
+                            "a" | "b" => {
+                                let pl = do_next(&mut conn, sv, id, &mut shape);
+                                if is_a { sta.on_pull(&pl, end, &mut failures) } else { stb.on_pull(&pl, end, &mut failures) }
+                                obs.push(show_pulled(&pl, known));
+                            }
+                            "A" | "B" => {
+                                let mut toks = Vec::new();
+                                for _ in 0..200_000 {
+                                    let pl = do_next(&mut conn, sv, id, &mut shape);
+                                    if is_a { sta.on_pull(&pl, end, &mut failures) } else { stb.on_pull(&pl, end, &mut failures) }
+                                    toks.push(show_pulled(&pl, known));
+                                    if !matches!(&pl, Pulled::Chunk { last: 0, .. }) {
+                                        break;
+                                    }
+                                }
+                                obs.push(format!("[{}]", toks.join(" ")));
+                            }
+                            "x" | "y" => {
+                                match do_cancel(&mut conn, sv, id, false) {
+                                    Ok(()) => obs.push("ack".into()),
+                                    Err(e) => {
+                                        failures.push(("svs.raw.cancel_failed".into(), e));
+                                        obs.push("cancel-failed".into());
+                                    }
+                                }
+                                if is_a { sta.released = true } else { stb.released = true }
+                            }
+                            _ => return None,
+                        }
+                    }
+                    for s in shape {
+                        failures.push(("svs.raw.wire_shape".into(), s));
+                    }
+                    for (name, st, b) in [("A", &sta, &ba), ("B", &stb, &bb)] {
+                        if st.last_seen && st.delivered != b.logical {
+                            failures.push(("svs.duo.concat_mismatch".into(), format!("stream {name}: pulled {} bytes, producer emitted {}; first difference {:?}", st.delivered.len(), b.logical.len(), first_diff(&st.delivered, &b.logical))));
+                        } else if !st.last_seen && !b.logical.starts_with(&st.delivered) {
+                            failures.push(("svs.duo.prefix_mismatch".into(), format!("stream {name}: bytes pulled so far are not a prefix of its producer's bytes")));
+                        }
+                    }
+                }
+                (a, b) => {
+                    failures.push(("svs.raw.open_failed".into(), format!("{:?} / {:?}", a.err(), b.err())));
+                    obs.push("open-failed".into());
+                }
+            }
+            conn.close(sv);
+        }
+    }
+    unregister(&ra);
+    unregister(&rb);
+    Some(RawResult { op, obs: obs.join(" "), nontrivial: steps >= 3, failures, skip: false })
+}
+
+fn params_from_duo(w: &[&str]) -> Option<(Params, Params, String)> {
+    // duo idx srv kind chunk depth sa ea enda sb eb endb script auxa auxb
+    if w.len() != 15 { return None; }
+    let mk = |evs: &str, end: &str, aux: &str| -> Option<Params> {
+        let mut p = Params {
+            srv: w[2].into(), kind: w[3].into(), comp: 0, chunk: w[4].parse().ok()?, depth: w[5].parse().ok()?,
+            speed: 'n', len: 0, seed: 0, piece: 8192, interrupt: 0, fail_at: NONE, variant: String::new(),
+            evs: vec![], end: End::parse(end)?,
+        };
+        p.parse_aux(aux)?;
+        if p.kind.starts_with("writer:") { p.evs = parse_evs(evs)?; }
+        Some(p)
+    };
+    Some((mk(w[7], w[8], w[13])?, mk(w[10], w[11], w[14])?, w[12].to_string()))
+}
+
+// ------------------------------------------------------------------------------------------
 // high-level pullers
 // ------------------------------------------------------------------------------------------
 enum HlOut {
@@ -1083,6 +1190,15 @@ impl Runner {
             None => self.out.count("svs.generator.unbuildable"),
         }
     }
+    fn duo(&mut self, pa: &Params, pb: &Params, script: &str) {
+        self.n += 1;
+        let idx = format!("{}", self.n);
+        self.count(pa, "duo");
+        match exec_duo(&mut self.sv, &mut self.out, &idx, pa, pb, script) {
+            Some(r) => self.finish_case(r),
+            None => self.out.count("svs.generator.unbuildable"),
+        }
+    }
     fn hl(&mut self, p: &Params, client: &str, puller: &str) {
         self.n += 1;
         let idx = format!("{}", self.n);
@@ -1134,7 +1250,8 @@ fn sized(r: &mut Rng, mut p: Params, target: usize) -> Params {
         "reader" => { p.len = target; p.piece = *r.pick(&[1usize, 5, 4096, 8192, 100_000]); if target > 65536 { p.piece = 8192; } }
         k if k.starts_with("writer:") => { p.evs = if target > 65536 { big_evs(r, target, p.chunk) } else { random_evs(r, target, p.chunk) }; }
         "value" => {
-            if target <= 1 { p.variant = "unit".into(); }
+            if target > 100 && r.chance(1, 3) { p.variant = "rec".into(); p.seed = 1 + r.below(1000); p.len = target / 8; }
+            else if target <= 1 { p.variant = "unit".into(); }
             else { p.variant = "str".into(); p.seed = 1 + r.below(1000);
                    // 1 header byte + compressed size (1/2/4/8 bytes) + n
                    let n = if target <= 65 { target - 2 } else if target <= 16386 { target.saturating_sub(3).max(64) } else { target.saturating_sub(5).max(16384) };
@@ -1183,6 +1300,7 @@ fn main() {
             match w.first().copied() {
                 Some("raw") => if let Some((p, script)) = params_from_raw(&w) { run.raw(&p, &script); },
                 Some("hl") => if let Some((p, client, puller)) = params_from_hl(&w) { run.hl(&p, &client, &puller); },
+                Some("duo") => if let Some((pa, pb, script)) = params_from_duo(&w) { run.duo(&pa, &pb, &script); },
                 _ => {}
             }
         }
@@ -1242,7 +1360,7 @@ fn main() {
     let n_random = if thorough { 30000 } else { 1200 };
     for _ in 0..n_random {
         let chunk = *r.pick(&[1usize, 2, 3, 7, 64, 4096, 4096, 64, 7]);
-        let n = match r.below(5) { 0 => r.below(6) as usize, 1 => chunk * r.below(5) as usize, 2 => (chunk * r.below(5) as usize + 1), 3 => (chunk * (1 + r.below(4) as usize)).saturating_sub(1), _ => r.below(6 * chunk as u64 + 2) as usize };
+        let n = match r.below(5) { 0 => r.below(6) as usize, 1 => chunk * r.below(5) as usize, 2 => chunk * r.below(5) as usize + 1, 3 => (chunk * (1 + r.below(4) as usize)).saturating_sub(1), _ => r.below(6 * chunk as u64 + 2) as usize };
         let n = n.min(40 * chunk.max(8));
         let kind = *r.pick(&kinds);
         let comp = if r.chance(1, 3) { 1 } else { 0 };
@@ -1287,9 +1405,31 @@ fn main() {
         p.end = if rot % 3 == 0 { End::Vanish } else { End::Err };
         run.raw(&p, "N,n");
     }
+    // (F2) two streams open at once on one connection: isolation of sessions, ids, lookahead
+    for _ in 0..(if thorough { 600 } else { 60 }) {
+        rot += 1;
+        let chunk = *r.pick(&[1usize, 2, 3, 7, 64]);
+        let kind = ["reader", "writer:0"][rot % 2];
+        let srv = srvs[(rot / 2) % 2];
+        let depth = r.below(9) as usize;
+        let mk = |r: &mut Rng| {
+            let n = r.below(5 * chunk as u64 + 2) as usize;
+            let mut p = sized(r, base(srv, kind, 0, chunk, depth), n);
+            if r.chance(1, 5) {
+                p.end = if r.chance(1, 3) { End::Vanish } else { End::Err };
+                if kind == "reader" { p.fail_at = r.below(n as u64 + 1) as usize; p.len = p.fail_at + 3; }
+            }
+            if r.chance(1, 2) { p.seed = 1 + r.below(1 << 20); }
+            p
+        };
+        let (pa, pb) = (mk(&mut r), mk(&mut r));
+        let len = 2 + r.below(8) as usize;
+        let script: Vec<&str> = (0..len).map(|_| *r.pick(&["a", "b", "a", "b", "a", "b", "A", "B", "x", "y"])).collect();
+        run.duo(&pa, &pb, &script.join(","));
+    }
     // (G) slow producer / slow consumer
     for &speed in &['p', 'c'] {
-        for depth in [0usize, 1, 4] {
+        for depth in [0usize, 1, 2, 4, 8] {
             for &srv in &srvs {
                 rot += 1;
                 let kind = ["reader", "writer:0"][rot % 2];
